@@ -566,8 +566,20 @@ def finish(src, f, args):
 
 # ---- string family
 
+def g_in_domain(src, n):
+    """(position, length or None) inside the domain: position in +-[1..n], length in [1..E]."""
+    p = src.int(1, n)
+    avail = n - p + 1
+    if src.bool(0.5):
+        p = -(n - p + 1)       # the same cut counted from the end
+    return N(p), (N(src.int(1, avail)) if src.bool(0.6) else None)
+
+
 def gen_substring(src):
     s = g_text(src)
+    if s and src.bool(0.45):
+        p, l = g_in_domain(src, len(s))
+        return finish(src, "substring", [S(s), p] + ([l] if l else []))
     args = [maybe(src, S(s), "string"), g_position(src, len(s))]
     if src.bool(0.6):
         args.append(g_length(src, len(s)))
@@ -734,6 +746,9 @@ def gen_flatten(src):
 def gen_sublist(src):
     l = g_list(src)
     n = len(l["l"])
+    if n and src.bool(0.45):
+        p, ln = g_in_domain(src, n)
+        return finish(src, "sublist", [l, p] + ([ln] if ln else []))
     args = [maybe(src, l, "list"), g_position(src, n)]
     if src.bool(0.6):
         args.append(g_length(src, n))
